@@ -241,6 +241,17 @@ def run_shard(spec_, res):
             res.count("generated_unsaveable")
             continue
         sources.append((f"generated:{c.kind}", raw, c.describe()))
+        if i % 2 == 0:
+            # the same content as ANOTHER writer would store it (the independent reference encoder with random format choices):
+            # X need not be something this library would ever write itself
+            try:
+                from .. import build as _build, refcodec
+                import rv.api as api
+                N = _build.norm(c.snap if c.kind == "project" else snapshot.snap_synth(api.Synth(c.obj)), "before")
+                ch = refcodec.Choices(random.Random(i * 7 + spec_["seed"]))
+                sources.append((f"foreign:{c.kind}", refcodec.encode(N, ch), dict(c.describe(), choices=ch.describe())))
+            except Exception:
+                res.count("foreign_encoding_failed")
     for origin, raw, desc in sources:
         cycle(res, raw, origin.split(":")[0], dict(desc, origin=origin, mutation=None))
         nm = spec_["mutations"] if origin.startswith("fixture") else max(2, spec_["mutations"] // 6)
